@@ -254,6 +254,37 @@ def equalsIP (h : HostAddr) (ip : List Nat) : Bool :=
     | some a, some b => a == b
     | _, _ => false
 
+/-- Where the NTS-protected request goes (client_ip.go / client_scion.go, the glue behind
+    `FetchData`): `remoteAddr.IP = net.ParseIP(ntskeData.Server)`, `remoteAddr.Port =
+    int(ntskeData.Port)`, then the 4-byte form of the address when it has one. `parsed` is the
+    result of `net.ParseIP` on the server named in the key exchange — an oracle input: the 16
+    bytes of an IP literal, or `none` (Go's nil) for a host name, a zoned literal, the empty
+    string, garbage. Result: the one (host, port) a request may be sent to (over SCION: the
+    destination host and UDP port of the SCION header, and the underlay destination when the
+    server is in the client's AS), or `none`: no datagram leaves and the call fails — the write to
+    an address without IP fails (IP client), `errUnexpectedAddrType` (SCION client, as repaired).
+    `held` is what the caller's long-lived address object holds before the call (the configured
+    server, or what an earlier exchange named): both fields are overwritten unconditionally. -/
+def ntsDestination (held : List Nat × Nat) (parsed : Option (List Nat)) (port : Nat) :
+    Option (List Nat × Nat) :=
+  let _ := held
+  match parsed with
+  | none => none
+  | some ip => (unmapIP ip).map fun a => (a, port)
+
+/-- outcome of the glue for the SCION client before the `fix:` commit: a server name that is no
+    IP literal left `remoteAddr.Host.IP == nil`, and `netip.AddrFromSlice(nil)` a few lines on
+    ended in `panic(errUnexpectedAddrType)` -/
+inductive NtsDestOld where
+  | panic
+  | dest (d : Option (List Nat × Nat))
+deriving Repr, DecidableEq
+
+def ntsDestinationSCIONOld (parsed : Option (List Nat)) (port : Nat) : NtsDestOld :=
+  match parsed with
+  | none => .panic
+  | some ip => .dest ((unmapIP ip).map fun a => (a, port))
+
 /-- A datagram as parsed by gopacket/slayers (the parse itself is outside the model):
     `decoded` = the layer types `DecodeLayers` reports, in order. -/
 structure ScionDgram where
